@@ -54,6 +54,9 @@ def run(ctx) -> None:
             ("--all-matches is store_true, default False", kw("--all-matches").get("action") == "'store_true'" and kw("--all-matches").get("default", "False") == "False"),
             ("--return_only_address is store_true, default False", kw("--return_only_address").get("action") == "'store_true'" and kw("--return_only_address").get("default", "False") == "False"),
             ("--macros takes one or more files", kw("--macros").get("nargs") == "'+'"),
+            ("the path options reach the library as typed: type is str or absent, no default, no action (-p, -b, -s, --macros)",
+             all(kw(f).get("type", "str") in ("str", "<extern str>", "None") and "default" not in kw(f) and "action" not in kw(f) and "choices" not in kw(f)
+                 for f in ("--pattern", "--binary", "--assembly", "--macros"))),
             ("--info defaults to True", kw("--info").get("default") == "True"),
             ("terminal logging defaults to on", kw("--enable_logging_to_terminal").get("default") == "True"),
         ]
